@@ -64,6 +64,10 @@ def tag_enc(cls, num):
 CHAR_WIDTH = {'BMPString': 2, 'UniversalString': 4}
 
 
+class DerOrder(NoChoice):
+    setof_der_order = True
+
+
 def encode(mod, t, v, ch=None, tag='own'):
     ch = ch or NoChoice()
     bt = mod.resolve(t)
@@ -127,7 +131,14 @@ def encode(mod, t, v, ch=None, tag='own'):
         raise ValueError(an)
     if k in ('SEQUENCE OF', 'SET OF'):
         encs = [encode(mod, bt.elem, e, ch) for e in v]
-        if k == 'SET OF' and len(encs) > 1:
+        if k == 'SET OF' and len(encs) > 1 and getattr(ch, 'setof_der_order', False):
+            # diagnostic variant (not an X.696 encoding rule): elements in the order of their DER encodings, which is the
+            # in-memory order of a value obtained by decoding DER - used to attribute a difference to element order alone
+            _ber = B
+            ders = [_ber.encode(mod, bt.elem, e) for e in v]
+            Ld = max(len(e) for e in ders)
+            encs = [e for _, _, e in sorted(zip([d + b'\0' * (Ld - len(d)) for d in ders], range(len(encs)), encs))]
+        elif k == 'SET OF' and len(encs) > 1:
             L = max(len(e) for e in encs)
             srt = sorted(encs, key=lambda x: x + b'\0' * (L - len(x)))
             if srt != srt[::-1]:
